@@ -175,7 +175,7 @@ def jobs(tier, seed):
         for s_ in names:
             via = ("run", "step", "half")[k % 3]
             k += 1
-            out.append({"label": "reuse-%s-%s-%s" % (f, s_, via), "harness": "reuse", "args": {"first": f, "second": s_, "via": via}, "cost": 3, "validate_every": 1})
+            out.append({"label": "reuse-%s-%s-%s" % (f, s_, via), "harness": "reuse", "args": {"first": f, "second": s_, "via": via}, "cost": 3, "validate_every": 1, "hard_wall_s": 120})
     return out
 
 
